@@ -55,7 +55,12 @@ pub fn gen_block_ret(r: &mut Rng, depth: usize, counter: &mut usize, budget: &mu
                 let mut bodies = vec![];
                 for _ in 0..nc {
                     *counter += 1;
-                    conds.push(match r.below(3) { 0 => json!({"lit": r.chance(1, 2)}), 1 => json!({"var": format!("b{}", r.below(3))}), _ => json!({"probe": *counter, "val": r.chance(1, 2)}) });
+                    conds.push(match r.below(5) { 0 => json!({"lit": r.chance(1, 2)}), 1 => json!({"var": format!("b{}", r.below(3))}),
+                        // a command in condition position whose own arguments form a statement with and / or / groups
+                        2 => json!({"nx": [r.chance(1, 2), r.chance(1, 2)], "op": r.pick(&["and", "or"]), "grp": r.chance(1, 2)}),
+                        // a compound statement of values
+                        3 => json!({"cx": [r.chance(1, 2), r.chance(1, 2), r.chance(1, 2)], "ops": [r.pick(&["and", "or"]), r.pick(&["and", "or"])], "grp": r.chance(1, 2)}),
+                        _ => json!({"probe": *counter, "val": r.chance(1, 2)}) });
                     bodies.push(Value::Array(gen_block_ret(r, depth + 1, counter, budget, allow_ret)));
                 }
                 let els = if r.chance(1, 2) { Value::Array(gen_block_ret(r, depth + 1, counter, budget, allow_ret)) } else { Value::Null };
@@ -63,7 +68,7 @@ pub fn gen_block_ret(r: &mut Rng, depth: usize, counter: &mut usize, budget: &mu
             }
             // "once": the loop runs only the first time it is reached (later it is reached with a condition that is already false)
             4 => out.push(json!({"k": "while", "id": id, "twice": r.chance(1, 2), "once": r.chance(1, 3), "body": gen_block_ret(r, depth + 1, counter, budget, allow_ret), "sp": sp})),
-            _ => out.push(json!({"k": "for", "id": id, "n": r.below(3), "body": gen_block_ret(r, depth + 1, counter, budget, allow_ret), "sp": sp})),
+            _ => out.push(json!({"k": "for", "id": id, "n": if depth == 0 && r.chance(1, 12) { 130 + r.below(30) } else { r.below(3) }, "body": gen_block_ret(r, depth + 1, counter, budget, allow_ret), "sp": sp})),
         }
     }
     out
@@ -97,7 +102,17 @@ const FOR_SP: [&str; 2] = ["for", "std::flowcontrol::ForIn"];
 const ENDFOR_SP: [&str; 3] = ["end", "end_for", "std::flowcontrol::EndForIn"];
 
 fn cond_text(c: &Value) -> String {
-    if let Some(b) = c["lit"].as_bool() {
+    if let Some(nx) = c["nx"].as_array() {
+        let inner = format!("{} {} {}", nx[0], c["op"].as_str().unwrap(), nx[1]);
+        if c["grp"].as_bool().unwrap_or(false) { format!("not ( {} )", inner) } else { format!("not {}", inner) }
+    } else if let Some(cx) = c["cx"].as_array() {
+        let ops = c["ops"].as_array().unwrap();
+        if c["grp"].as_bool().unwrap_or(false) {
+            format!("{} {} ( {} {} {} )", cx[0], ops[0].as_str().unwrap(), cx[1], ops[1].as_str().unwrap(), cx[2])
+        } else {
+            format!("{} {} {} {} {}", cx[0], ops[0].as_str().unwrap(), cx[1], ops[1].as_str().unwrap(), cx[2])
+        }
+    } else if let Some(b) = c["lit"].as_bool() {
         b.to_string()
     } else if let Some(id) = c["probe"].as_u64() {
         format!("probe {} {}", id, c["val"])
@@ -171,7 +186,35 @@ fn truthy(v: Option<&String>) -> bool {
     }
 }
 
+/// the value of `a op b op c` under the statement's rule: a conjunction of disjunctions
+fn and_of_ors(vals: &[bool], ops: &[&str]) -> bool {
+    let mut total = true;
+    let mut cur = vals[0];
+    for (i, op) in ops.iter().enumerate() {
+        if *op == "and" {
+            total = total && cur;
+            cur = vals[i + 1];
+        } else {
+            cur = cur || vals[i + 1];
+        }
+    }
+    total && cur
+}
+
 fn eval_cond(c: &Value, vars: &mut BTreeMap<String, String>) -> bool {
+    if let Some(nx) = c["nx"].as_array() {
+        let (a, b) = (nx[0].as_bool().unwrap(), nx[1].as_bool().unwrap());
+        return !and_of_ors(&[a, b], &[c["op"].as_str().unwrap()]);
+    }
+    if let Some(cx) = c["cx"].as_array() {
+        let v: Vec<bool> = cx.iter().map(|x| x.as_bool().unwrap()).collect();
+        let ops: Vec<&str> = c["ops"].as_array().unwrap().iter().map(|x| x.as_str().unwrap()).collect();
+        if c["grp"].as_bool().unwrap_or(false) {
+            let g = and_of_ors(&[v[1], v[2]], &[ops[1]]);
+            return and_of_ors(&[v[0], g], &[ops[0]]);
+        }
+        return and_of_ors(&v, &ops);
+    }
     if let Some(b) = c["lit"].as_bool() {
         b
     } else if let Some(id) = c["probe"].as_u64() {
@@ -191,7 +234,7 @@ pub fn interp(block: &Vec<Value>, vars: &mut BTreeMap<String, String>, steps: &m
 pub fn interp_ret(block: &Vec<Value>, vars: &mut BTreeMap<String, String>, steps: &mut usize) -> Option<Option<String>> {
     for s in block {
         *steps += 1;
-        if *steps > 5000 {
+        if *steps > 20000 {
             return None;
         }
         match s["k"].as_str().unwrap() {
@@ -241,7 +284,7 @@ pub fn interp_ret(block: &Vec<Value>, vars: &mut BTreeMap<String, String>, steps
                     let x = vars.get(&format!("x{}", id)).cloned().unwrap_or_default();
                     vars.insert(format!("w{}", id), x);
                     vars.insert(format!("x{}", id), "false".to_string());
-                    if *steps > 5000 {
+                    if *steps > 20000 {
                         return None;
                     }
                 }
@@ -294,7 +337,7 @@ fn run_inner(input: &Value) -> Option<Value> {
         }
     }
     interp(&prog, &mut vars, &mut steps);
-    if steps > 5000 {
+    if steps > 20000 {
         return None;
     }
     // with a history the real run may be misdirected into a loop: stop it through the halt flag after a while
